@@ -7,6 +7,6 @@ CONSTANTS
   MaxCrashes = 2
   CrashPlans <- AnyTime
   Emit = FALSE
-INVARIANTS TypeOK AssignedOnce AtMostOnce FileOrBackupComplete CrashLosesOnlyInFlight NoLostJob RestartExact MutexInSync LockConsistent NoAbort
+INVARIANTS TypeOK AssignedOnce AtMostOnce AssignedOncePerRun AtMostOncePerRun FileOrBackupComplete CrashLosesOnlyInFlight NoLostJob RestartExact MutexInSync LockConsistent NoAbort
 VIEW View
 PROPERTY ResultsNotOverwritten
